@@ -81,7 +81,8 @@ CollisionE == /\ collisions' = collisions + 1
               /\ UNCHANGED <<ringSize, started, pred, returned, inWrite, delivered, alerts, outstandingMax, closing, closed>>
 
 \* C10: reported counts never exceed the ring positions claimed (one per Write plus one per retry)
-AlertG(n) == n > 0 /\ alerts + n <= Cardinality(started) + collisions
+\* ... and a position is delivered or reported missed, never both
+AlertG(n) == n > 0 /\ alerts + n + Len(delivered) <= Cardinality(started) + collisions
 AlertE(n) == /\ alerts' = alerts + n
              /\ UNCHANGED <<ringSize, started, pred, returned, inWrite, delivered, collisions, outstandingMax, closing, closed>>
 
